@@ -1288,3 +1288,115 @@ theorem loss_empties (s : St) (hde : DeadEmpty s.base) (hc : s.canResume = false
   | false => simp [step, C07.run, C07.step, hd, hc, cancelAll]
 
 end Qx.C07.Neg
+
+namespace Qx.C07.Blocklist
+
+theorem calls_append (a b : List Ev) : calls (a ++ b) = calls a ++ calls b := by simp [calls]
+
+/-- every call made so far is waiting exactly once or has completed exactly once -/
+def Inv (s : St) (log : List Ev) : Prop := (s.waiting ++ calls log).Perm (List.range s.ncalls)
+
+theorem step_inv (s : St) (op : Op) {log : List Ev} (h : Inv s log) :
+    Inv (step s op).1 (log ++ (step s op).2) := by
+  unfold Inv at h ⊢
+  have hmap : ∀ (w : List Nat) (ok : Bool), calls (w.map fun n => (⟨n, ok⟩ : Ev)) = w := by
+    intro w ok; simp [calls, List.map_map, Function.comp_def]
+  cases op with
+  | fetch =>
+    simp only [step]
+    split
+    · rw [calls_append, List.range_succ, ← List.append_assoc]
+      exact List.Perm.append_right _ h
+    · simp only [List.append_nil]
+      rw [List.range_succ]
+      have p1 : (s.waiting ++ [s.ncalls] ++ calls log).Perm ((s.waiting ++ calls log) ++ [s.ncalls]) := by
+        rw [List.append_assoc, List.append_assoc]
+        exact List.Perm.append_left _ List.perm_append_comm
+      exact p1.trans (List.Perm.append_right _ h)
+  | iqDone ok =>
+    simp only [step]
+    split
+    · simpa using h
+    · simp only [calls_append, hmap, List.nil_append]
+      exact List.perm_append_comm.trans h
+  | newSession =>
+    simp only [step, calls_append, hmap, List.nil_append]
+    exact List.perm_append_comm.trans h
+  | resumedSession => simpa [step] using h
+
+theorem run_inv (ops : List Op) : ∀ (s : St) {log : List Ev}, Inv s log →
+    Inv (run s ops).1 (log ++ (run s ops).2) := by
+  induction ops with
+  | nil => intro s log h; simpa [run] using h
+  | cons op rest ih =>
+    intro s log h
+    simp only [run]
+    have := ih _ (step_inv s op h)
+    simpa [List.append_assoc] using this
+
+theorem reachable_inv (ops : List Op) : Inv (run init ops).1 (run init ops).2 := by
+  have := run_inv ops init (log := []) (by simp [Inv, init, calls])
+  simpa using this
+
+end Qx.C07.Blocklist
+
+namespace Qx.C07.Sensitive
+
+def isFinish : Ev → Bool := fun _ => true
+def finishes (l : List Ev) : Nat := l.length
+
+/-- finished exactly when the pipeline has ended -/
+def Inv (s : St) (n : Nat) : Prop := (s.stage = .done → n = 1) ∧ (s.stage ≠ .done → n = 0)
+
+theorem step_inv (s : St) (n : Nat) (op : Op) (h : Inv s n) :
+    Inv (step s op).1 (n + finishes (step s op).2) := by
+  unfold Inv at h ⊢
+  cases op with
+  | start =>
+    simp only [step]
+    split
+    · rename_i hc
+      have : s.stage ≠ .done := by rw [hc.1]; decide
+      exact ⟨(by intro h'; cases h'), fun _ => by simpa [finishes] using h.2 this⟩
+    · simpa [finishes] using h
+  | encDone ok =>
+    simp only [step]
+    split
+    · simpa [finishes] using h
+    · rename_i hc
+      have hs : s.stage = .encrypting := by simpa using hc
+      have h0 : n = 0 := h.2 (by rw [hs]; decide)
+      split
+      · exact ⟨(by intro h'; cases h'), fun _ => by simp [finishes, h0]⟩
+      · exact ⟨fun _ => by simp [finishes, h0], fun h' => absurd rfl h'⟩
+  | iqDone r =>
+    simp only [step]
+    split
+    · simpa [finishes] using h
+    · rename_i hc
+      have hs : s.stage = .sent := by simpa using hc
+      have h0 : n = 0 := h.2 (by rw [hs]; decide)
+      split
+      · exact ⟨(by intro h'; cases h'), fun _ => by simp [finishes, h0]⟩
+      · exact ⟨fun _ => by simp [finishes, h0], fun h' => absurd rfl h'⟩
+  | decDone r =>
+    simp only [step]
+    split
+    · simpa [finishes] using h
+    · rename_i hc
+      have hs : s.stage = .decrypting := by simpa using hc
+      have h0 : n = 0 := h.2 (by rw [hs]; decide)
+      exact ⟨fun _ => by simp [finishes, h0], fun h' => absurd rfl h'⟩
+  | dropExtension => simpa [step, finishes] using h
+
+theorem run_inv (ops : List Op) : ∀ (s : St) (n : Nat), Inv s n →
+    Inv (run s ops).1 (n + finishes (run s ops).2) := by
+  induction ops with
+  | nil => intro s n h; simpa [run, finishes] using h
+  | cons op rest ih =>
+    intro s n h
+    simp only [run]
+    have := ih _ _ (step_inv s n op h)
+    simpa [finishes, Nat.add_assoc] using this
+
+end Qx.C07.Sensitive
